@@ -50,4 +50,10 @@ theorem C01_text (rnd : Nat → Nat) (k : Nat) (items : List ProgText.Item) (fue
     Nonempty (Assembled [] (items.map (fun x => x.stmt.item)) bytes) :=
   C01_layout_exists [] _ bytes ((assemble_prog rnd fuel k items hf bytes k').1 h).1
 
+/-- … and the side condition `himm` of `C01_offsets` / `C01_jumpdest` (an operand exactly on the pushN opcodes) holds for
+the items of every well-formed program text -/
+theorem C01_text_himm (head : List Asm.Layout.BlankLine) (items : List Asm.ProgText.Item) (h : Asm.ProgText.WF head items) :
+    ∀ code imm, Asm.Item.op code imm ∈ items.map (fun x => x.stmt.item) → (imm.isSome ↔ (0x60 ≤ code ∧ code ≤ 0x7f)) :=
+  Asm.ProgText.himm_prog head items h
+
 end EtkVerif.C01
